@@ -38,3 +38,8 @@ claim('C09', 'exploration',
       'Trusted: pysam AlignedSegment geometry. Under no_umi_cigar_processing only the mirror relation is asserted; trimmed scCHIC layout = one base removed.',
       'property-based testing (Hypothesis) with a ground-truth simulator oracle + metamorphic mirror relation',
       'DESIGN.md section 4, C09')
+claim('C05', 'exploration',
+      'Hypothesis-generated simulated libraries (1..12 contigs around the 100 kb threshold in random header order, empty and invalid-only contigs, PCR copies on several lanes, unmapped / half-mapped / orphan / cross-contig reads, demultiplexer-style names or pre-tagged reads) run through run_multiome_tagging_cmd for nla / chic / qflag, single process and --multiprocess (deterministic pool with drawn completion order, or the real pool), --no_rejects and -skip_contig; input and output compared as record multisets, plus sort order, index and read-group declarations.',
+      'Trusted: pysam/htslib, pysamiterators (its un-pairing of non co-located mates is accepted: mate number compared for co-located pairs only). No secondary/supplementary records generated.',
+      'property-based testing (Hypothesis) with a library simulator and a multiset-accounting oracle; completion order owned by a deterministic pool',
+      'DESIGN.md section 4, C05')
